@@ -19,6 +19,8 @@ func main() {
 		os.Exit(cmdCheck(os.Args[2:]))
 	case "replay":
 		os.Exit(cmdReplay(os.Args[2:]))
+	case "manifest":
+		os.Exit(cmdManifest())
 	case "selftest":
 		os.Exit(cmdSelftest(os.Args[2:]))
 	default:
@@ -87,6 +89,4 @@ func shortFile(f string) string {
 	return f
 }
 
-func cmdCheck(args []string) int    { return 2 }
-func cmdReplay(args []string) int   { return 2 }
 func cmdSelftest(args []string) int { return 2 }
